@@ -7,6 +7,8 @@ CONSTANTS
   DropChoices <- DropsLF
   H = 1
   PStalls = {0}
+  Observe = FALSE
+  SkipIdxStep = FALSE
   CStalls = {0}
 INVARIANTS EmitScn
 CHECK_DEADLOCK FALSE
